@@ -491,7 +491,34 @@ def serial_writers(P, R, canonical=False):
             if t.ev['k'] == 'call' and (t.ev.get('callee') in ('set_find', 'set_lower') or any(g.name in ('iauth_find_request', 'iauth_validate_request') for g in P.callees(t, True))):
                 return True
             return any(isinstance(x, dict) and x.get('k') == 'callref' and x.get('callee') in ('set_find', 'set_lower', 'iauth_find_request', 'iauth_validate_request') for ex in rules.event_exprs(t.ev) for x in walk(ex))
-        acted = [t for t in h.sites() if 'none' in before_.get(t.key, set()) and t.bid not in ser_blocks and (
+        # ... except to withdraw it: the server using an id again says that its previous holder is gone, and a lookup whose
+        # result goes nowhere but to the handler of the server's own withdrawal (D) decides nothing about the new client
+        rp = core.retire_pred(P)
+        retiring = {g.key for g in P.unit_fns(h.unit) if any(rp(x) for x in g.sites())}
+        excused = set()
+        for t in h.sites():
+            val = t.ev.get('rhs') if t.ev['k'] == 'store' else t.ev.get('init') if t.ev['k'] == 'decl' else None
+            if not (isinstance(val, dict) and val.get('k') == 'callref' and val.get('callee') == 'set_find'):
+                continue
+            v = t.ev['lhs']['name'] if t.ev['k'] == 'store' and is_var(t.ev.get('lhs')) else t.ev.get('name') if t.ev['k'] == 'decl' else None
+            if not v:
+                continue
+
+            def ev_(st, u, t=t, v=v):
+                if u.key == t.key:
+                    return 'held'
+                if st == 'held' and u.ev['k'] == 'store' and is_var(u.ev.get('lhs'), v):
+                    return 'gone'
+                return st
+            bf, _, _, _ = h.forward('gone', ev_)
+            other = [u for u in h.sites() if u.key != t.key and 'held' in bf.get(u.key, set())
+                     and any(is_var(x, v) for ex in rules.event_exprs(u.ev) for x in walk(ex))
+                     and not (u.ev['k'] == 'call' and any(g.key in retiring for g in P.callees(u, False)))
+                     and not (u.ev['k'] == 'store' and is_var(u.ev.get('lhs'), v))]
+            if not other and any(u.ev['k'] == 'call' and any(g.key in retiring for g in P.callees(u, False)) and any(is_var(a, v) for a in u.ev['args']) for u in h.sites()):
+                excused.add(t.key)
+                excused.update(c.key for c in h.calls('set_find') if c.bid == t.bid and c.idx <= t.idx and c.ev['args'] and is_var(c.ev['args'][0], uar.TABLE))
+        acted = [t for t in h.sites() if 'none' in before_.get(t.key, set()) and t.bid not in ser_blocks and t.key not in excused and (
             (t.ev['k'] == 'call' and t.ev.get('callee') == 'set_insert') or looks_up(t) or
             (t.ev['k'] == 'store' and any(x.get('k') == 'mem' and x.get('rec') == core.REQ_REC for x in walk(t.ev.get('lhs') or {}))))]
         R.ob('C04.WMC.2', not acted, acted[0] if acted else ser[0], 'every announcement that is acted on is given a fresh serial (on the paths of %s that avoid the assignment nothing is stored in a request or put into the table)' % h.name, key='announce-always-new')
